@@ -199,14 +199,14 @@ def gen_c16(tier, seed):
             pre = r.choice([0, 5])
             sinks = ("s%d" % pre, "c")
             k = r.randint(0, 8)
-            faults.append("F 0 realloc %d 12" % k)
+            faults.append("FR realloc %d 12" % k)   # armed right before the drain, counted from there
             meta["realloc_fail"] = k
         elif kind == 4:
             o["dl"] = r.choice([10, 30, 1000])
         elif kind == 5:
             sinks = (r.choice(["d", "n", "c"]), r.choice(["d", "n", "c"]))
         run = kind in (6, 7, 8) or (kind in (1, 2) and r.random() < 0.3)
-        parts = list(faults) + ["N 0"]
+        parts = ["N 0"]
         if run:
             if kind == 7:
                 o["stop"] = r.choice(["0:0:0:0:0:0", "1:1000:0:0:0:0", "1:-1:0:0:0:0", KILL_POLICY,
@@ -237,6 +237,7 @@ def gen_c16(tier, seed):
             parts += ev
             if r.random() < 0.3:
                 parts.append("Z %d" % r.choice([10, 50, 200]))
+            parts += faults
             parts.append("DR 0 %s %s" % sinks)
             if r.random() < 0.5 and kind not in (1, 3):
                 parts.append("DR 0 c c")  # a second drain: both streams closed already
@@ -553,13 +554,19 @@ def judge_c16(case, log):
         exp_first = []
         if custom[0]:
             exp_first.append((0, 0, 0))
-        out_fails_first = (fail and fail[0] == 0 and fail[1] == 0) or \
-            (m.get("realloc_fail") == 0 and sinks_now[0].startswith("s"))
+        out_fails_first = fail and fail[0] == 0 and fail[1] == 0
         if custom[1] and not out_fails_first:
             exp_first.append((1, 0, 0))
-        got_first = [tuple(c[:3]) for c in calls[:len(exp_first)]]
-        if got_first != exp_first:
-            V(vs, "C16", "initial-calls-wrong", "first sink calls %s, expected %s" % (got_first, exp_first))
+        # the recorded initial calls (tag "in", size 0) come first, one per recording sink, out before err;
+        # fewer than expected only if the drain was already over (allocation failure / failing sink)
+        n_init = 0
+        while n_init < len(calls) and n_init < len(exp_first) and calls[n_init][1] == 0:
+            n_init += 1
+        got_first = [tuple(c[:3]) for c in calls[:n_init]]
+        alloc_failed = ret == ENOMEM and any(f[4] for f in (log.fin.get("faults") or []))
+        if got_first != exp_first[:n_init] or (n_init < len(exp_first) and not alloc_failed):
+            V(vs, "C16", "initial-calls-wrong", "first sink calls %s, expected %s" % ([tuple(c[:3]) for c in calls[:len(exp_first)]], exp_first))
+        exp_first = exp_first[:n_init]
         seen_close = {1: 0, 2: 0}
         per_sink_idx = {0: 0, 1: 0}
         stopped = None
